@@ -66,6 +66,7 @@ ATOMS = [
     ("value(@.*)", False), ("nosuch(@.a)", False), ("length(@.a, @.b) == 1", False), ("length(@.*) == 1", False),
     ("count(1) == 1", False), ("length(value(@.*)) == 1", True), ("search(@.a, length(@.b))", True), ("match(@.*, 'a')", False),
     ("count(@.a) == length('ab')", True), ("length(match(@.a, 'a')) == 1", False), ("search(@.a)", False), ("length() == 1", False),
+    ("@['a','b'] == 1", False), ("1 == $[0,1]", False), ("@['a'][0] == 1", True), ("@['a','b']", True),
     ("@.a == length(@.b)", True), ("@.a == match(@.b, 'a')", False), ("value(@.a == 1) == 1", False), ("count(@.a == 1) == 1", False),
 ]
 TEMPLATES = [
@@ -76,6 +77,7 @@ GOOD = [i for i, a in enumerate(ATOMS) if a[1]][: P.get("fillers", 3)]
 TPL_LO, TPL_HI = P.get("tpl_lo", 0), P.get("tpl_hi", len(TEMPLATES) - 1)
 # argument kinds for function parameter positions
 ARGS = [("1", "lit"), ("'a'", "lit"), ("@.a", "singular"), ("$.a[0]", "singular"), ("@.*", "nonsingular"), ("@..a", "nonsingular"),
+        ("@['a','b']", "nonsingular"), ("$[0,1]", "nonsingular"), ("@.a['b',0]", "nonsingular"), ("@['a']", "singular"),
         ("length(@.a)", "valuefn"), ("count(@.*)", "valuefn"), ("match(@.a, 'a')", "logicalfn"), ("@.a == 1", "comparison"),
         ("@.a && @.b", "logical")]
 VALUE_OK = {"lit", "singular", "valuefn"}
@@ -137,3 +139,13 @@ def accepts(text: str) -> bool:
     """Native replay target: *text* must compile."""
     JSONPathEnvironment().compile(text)
     return True
+
+
+def compiles_to(text: str, want: tuple) -> bool:
+    """Native replay target: *text* compiles to exactly the structure *want* (oracle.shape)."""
+    from vlib import oracle
+
+    def tup(x):  # JSON round trips turn tuples into lists
+        return tuple(tup(i) for i in x) if isinstance(x, (list, tuple)) else x
+
+    return oracle.shape(JSONPathEnvironment().compile(text)) == tup(want)
